@@ -56,6 +56,83 @@ theorem spec_get_exact (a : Spec) (k : K) (h : a.stopped = false) (p : P) :
   · rintro ⟨t, hm, hv⟩
     exact ⟨((k, p), t), ⟨⟨hm, rfl⟩, hv⟩, rfl⟩
 
+/-- the states reached by a history -/
+def implState (s : St) (ops : List Op) : St := ops.foldl (fun s op => (step s op).1) s
+def specState (a : Spec) (ops : List Op) : Spec := ops.foldl (fun a op => (specStep a op).1) a
+
+/-- the refinement relation holds in every reachable pair of states -/
+theorem reach_R (cap validity : Nat) (ops : List Op) :
+    R (implState (init cap validity) ops) (specState (Spec.init validity) ops) := by
+  suffices ∀ s a, R s a → R (implState s ops) (specState a ops) from this _ _ (R_init cap validity)
+  induction ops with
+  | nil => intro s a h; exact h
+  | cons op ops ih => intro s a h; exact ih _ _ (sim_step s a op h).1
+
+/-- End to end, on the implementation model: after *any* history (evictions, sweeps, restarts, any cache
+    capacity), a query on an open store answers with a duplicate-free list that contains `p` exactly when
+    the last addition of `(k, p)` is at most `validity` old. -/
+theorem impl_get_exact (cap validity : Nat) (ops : List Op) (k : K)
+    (h : (specState (Spec.init validity) ops).stopped = false) :
+    ∃ ps, (step (implState (init cap validity) ops) (.get k)).2 = .provs ps ∧ ps.Nodup ∧
+      ∀ p, p ∈ ps ↔ ∃ t, ((k, p), t) ∈ (specState (Spec.init validity) ops).last ∧
+        (specState (Spec.init validity) ops).now - t ≤ (specState (Spec.init validity) ops).validity := by
+  have hs := (sim_step _ _ (.get k) (reach_R cap validity ops)).2
+  generalize implState (init cap validity) ops = s at hs
+  generalize specState (Spec.init validity) ops = a at hs h
+  cases ho : (step s (.get k)).2 with
+  | ok => rw [ho] at hs; simp [specStep, h, Out.sim] at hs
+  | closed => rw [ho] at hs; simp [specStep, h, Out.sim] at hs
+  | provs ps =>
+    refine ⟨ps, rfl, ?_⟩
+    rw [ho] at hs
+    obtain ⟨qs, hq, hmem⟩ := spec_get_exact a k h (ps.headD 0)
+    rw [hq] at hs
+    refine ⟨hs.1, fun p => ?_⟩
+    obtain ⟨qs', hq', hmem'⟩ := spec_get_exact a k h p
+    rw [hq] at hq'; cases hq'
+    exact (hs.2.2 p).trans hmem'
+
+/-- every entry of the last-addition map comes from an addition in the history, at a time not later than now -/
+theorem spec_last_from_add (a : Spec) (ops : List Op) (k : K) (p : P) (t : Time)
+    (h : ((k, p), t) ∈ (specState a ops).last) :
+    ((k, p), t) ∈ a.last ∨ Op.add k p ∈ ops := by
+  induction ops generalizing a with
+  | nil => exact Or.inl h
+  | cons op ops ih =>
+    rcases ih (specStep a op).1 h with h' | h'
+    · cases op with
+      | add k' p' =>
+        simp only [specStep] at h'
+        split at h'
+        · exact Or.inl h'
+        · rcases (mem_diskPut _ _ _ _ _ _).1 h' with ⟨he, _⟩ | ⟨_, hm⟩
+          · cases he; exact Or.inr (List.mem_cons_self ..)
+          · exact Or.inl hm
+      | get k' => simp only [specStep] at h'; split at h' <;> exact Or.inl h'
+      | adv d => exact Or.inl h'
+      | gc => exact Or.inl h'
+      | restart => exact Or.inl h'
+      | close => exact Or.inl h'
+    · exact Or.inr (List.mem_cons_of_mem _ h')
+
+/-- Nothing invented: whatever the store answers for `k` after any history was added for `k` in that
+    history (not under another key, not by another provider). -/
+theorem impl_get_only_added (cap validity : Nat) (ops : List Op) (k : K) (ps : List P) (p : P)
+    (ho : (step (implState (init cap validity) ops) (.get k)).2 = .provs ps) (hp : p ∈ ps) :
+    Op.add k p ∈ ops := by
+  have hst : (specState (Spec.init validity) ops).stopped = false := by
+    have hs := (sim_step _ _ (.get k) (reach_R cap validity ops)).2
+    rw [ho] at hs
+    cases hb : (specState (Spec.init validity) ops).stopped with
+    | false => rfl
+    | true => simp [specStep, hb, Out.sim] at hs
+  obtain ⟨qs, hq, _, hmem⟩ := impl_get_exact cap validity ops k hst
+  rw [ho] at hq; cases hq
+  obtain ⟨t, ht, _⟩ := (hmem p).1 hp
+  rcases spec_last_from_add _ ops k p t ht with h | h
+  · simp [Spec.init] at h
+  · exact h
+
 /-- once closed, every operation reports closed and neither the datastore nor the cache is touched -/
 theorem closed_fence (s : St) (h : s.stopped = true) (k : K) (p : P) :
     ProviderStore.add s k p = (s, .closed) ∧ ProviderStore.get s k = (s, .closed) := by
